@@ -34,7 +34,7 @@ BATCH = [[], [2], [3, 2]]
 
 def cases(tier, seed):
     rnd = random.Random(2000 + seed)
-    reps = 4 if tier == "quick" else 60
+    reps = 4 if tier == "quick" else 150
     for rep in range(reps):
         for ki, kern in enumerate(KERNELS):
             for lik in ("gauss", "fixed", "fixed+learn"):
@@ -51,6 +51,10 @@ def cases(tier, seed):
         for t, rank in ((2, 0), (3, 1), (2, 2)):
             yield {"kernel": KERNELS[rep % 2], "lik": "mt", "t": t, "rank": rank, "n": rnd.choice([1, 4]), "d": 1, "batch": [], "priors": rnd.choice(["none", "independent"]),
                    "objective": "mll", "path": "cholesky", "seed": rnd.randrange(10**6)}
+        # priors handed to the constructors (`<parameter>_prior=`): each must enter at the constrained value of ITS parameter
+        for variant in ("cyl", "std"):
+            yield {"kernel": {"k": "ctor_" + variant}, "mean": "constant", "lik": "gauss", "n": rnd.choice([3, 6]), "d": 2, "batch": [], "priors": "ctor", "objective": rnd.choice(["mll", "loo"]),
+                   "path": "cholesky", "seed": rnd.randrange(10**6)}
         yield {"objective": "sum_mll", "members": [rnd.choice([3, 5, 8]) for _ in range(rnd.choice([2, 3]))], "priors": "independent", "seed": rnd.randrange(10**6)}
     for rep in range(2 if tier == "quick" else 24):
         yield {"kernel": KERNELS[rep % 2], "mean": "constant", "lik": "gauss", "n": rnd.choice([8, 12]), "d": 1, "batch": rnd.choice([[], [2]]), "priors": "independent",
@@ -156,6 +160,43 @@ def _build(case, g):
     return model, lik, X, y
 
 
+def _build_ctor(case, g):
+    import torch
+
+    import gpytorch
+    from vf import util
+
+    K, P = gpytorch.kernels, gpytorch.priors
+    n, d = case["n"], case["d"]
+    gam = lambda a, b_: (P.GammaPrior(a, b_), (lambda v, a=a, b_=b_: torch.distributions.Gamma(a, b_).log_prob(v)))  # noqa: E731
+    ref = []
+
+    def use(pair, owner_getter, attr):
+        ref.append((owner_getter, attr, pair[1]))
+        return pair[0]
+
+    if case["kernel"]["k"] == "ctor_cyl":
+        v = util.randn(g, n, d)
+        X = v / v.norm(dim=-1, keepdim=True) * (0.1 + 0.8 * util.rand(g, n, 1))
+        kern = K.ScaleKernel(
+            K.CylindricalKernel(3, K.MaternKernel(nu=2.5, lengthscale_prior=use(gam(2.0, 1.5), lambda m: m.covar_module.base_kernel.radial_base_kernel, "lengthscale")),
+                                angular_weights_prior=use(gam(1.5, 2.0), lambda m: m.covar_module.base_kernel, "angular_weights"),
+                                alpha_prior=use(gam(2.5, 1.0), lambda m: m.covar_module.base_kernel, "alpha"), beta_prior=use(gam(3.0, 2.5), lambda m: m.covar_module.base_kernel, "beta")),
+            outputscale_prior=use(gam(2.0, 0.7), lambda m: m.covar_module, "outputscale"))
+    else:
+        X = util.randn(g, n, d)
+        kern = K.ScaleKernel(K.PeriodicKernel(period_length_prior=use(gam(2.0, 1.5), lambda m: m.covar_module.base_kernel, "period_length"),
+                                              lengthscale_prior=use(gam(3.0, 2.5), lambda m: m.covar_module.base_kernel, "lengthscale")),
+                             outputscale_prior=use(gam(2.0, 0.7), lambda m: m.covar_module, "outputscale"))
+    lik = gpytorch.likelihoods.GaussianLikelihood(noise_prior=use(gam(1.2, 3.0), lambda m: m.likelihood, "noise"))
+    mean = gpytorch.means.ConstantMean(constant_prior=P.NormalPrior(0.3, 1.2))
+    ref.append((lambda m: m.mean_module, "constant", lambda v: torch.distributions.Normal(0.3, 1.2).log_prob(v)))
+    y = util.randn(g, n)
+    model = util.GP(X, y, lik, mean, kern)
+    util.randomize(model, g, 0.5)
+    return model, lik, X, y, [(getter(model), attr, logpdf) for getter, attr, logpdf in ref]
+
+
 def _dense_logp(model, lik, X, y, mt):
     """per batch element log N(y; mx, Kxx+S), differentiable w.r.t. the raw parameters, dense algebra only"""
     import torch
@@ -204,9 +245,12 @@ def run_case(case, ctx):
     g = util.gen(case["seed"])
     if case["objective"] == "sum_mll":
         return _sum_mll(case, ctx, g)
-    model, lik, X, y = _build(case, g)
+    if case["priors"] == "ctor":
+        model, lik, X, y, ref_priors = _build_ctor(case, g)
+    else:
+        model, lik, X, y = _build(case, g)
+        ref_priors = attach_priors(model, case["priors"], g, case.get("reg", "closure"))
     mt = case["lik"] == "mt"
-    ref_priors = attach_priors(model, case["priors"], g, case.get("reg", "closure"))
     if case.get("copy"):
         import copy
 
